@@ -337,6 +337,22 @@ class Manifest:
     def __iter__(s):
         return iter([l + '\n' for l in s.lines])
 
+    # the other ways of reading a text file from its start (after seek(0))
+    def read(s, n=-1):
+        return ''.join(l + '\n' for l in s.lines)
+
+    def readlines(s):
+        return [l + '\n' for l in s.lines]
+
+    def readline(s):
+        raise symex.Unsupported('Manifest.readline (position not modelled)')
+
+    def tell(s):
+        return 0
+
+    def close(s):
+        s.flush()
+
     def write(s, txt):
         s.buffer.append(txt)
 
